@@ -260,6 +260,14 @@ func (g *gen) checkPosts() {
 		for _, c := range g.con.Ensures {
 			f := g.evalBool(c.Expr, env, true)
 			o := g.oblige(rp.st, "post", c.Label, f, c.Text)
+			if o != nil {
+				o.Watch = map[string]*Term{}
+				for ri, rv := range rp.results {
+					if len(rv.L) == 1 {
+						o.Watch[fmt.Sprintf("ret%d", ri)] = rv.L[0]
+					}
+				}
+			}
 			if o != nil && rp.pos.IsValid() {
 				p := g.eng.fset.Position(rp.pos)
 				o.Pos = fmt.Sprintf("%s:%d", p.Filename, p.Line)
